@@ -15,6 +15,9 @@
 #ifndef VG_KF34
 #define VG_KF34 0
 #endif
+#ifndef VG_KF35
+#define VG_KF35 0     /* 1 in the known-finding variant: omitted blocks must be re-created */
+#endif
 int32_t nondet_i32(void); int64_t nondet_i64(void); uint32_t nondet_u32(void); uint16_t nondet_u16(void); uint8_t nondet_u8(void); _Bool nondet_bool(void);
 struct vg_payload { uint8_t b[VG_PAY + 8]; };
 static struct { uint8_t tag; uint16_t meta; uint32_t len; _Bool hdr_bad, pay_bad; struct vg_payload pay; int64_t pos; } vg_ch[VG_K];
@@ -167,6 +170,12 @@ void h_copy(void) {
                 __CPROVER_assert(vg_fw[w].kind == 6 && vg_fw[w].id == (meta & 0x0fff) && vg_fw[w].st == ((meta >> 12) & 0x0f) && vg_fw[w].n == vg_ch[w].len,
                                  "C17: user data is re-issued with its 12-bit tag, storage type and size");
             }
+        } else if (tag == JLS_TAG_TRACK_FSR_INDEX && ((meta >> 12) & 0x0f) == 1 && vg_ch[w].len >= sizeof(struct jls_fsr_index_s) + 8
+                   && ((const struct jls_fsr_index_s *) pb)->header.entry_count >= 1 && ((const struct jls_fsr_index_s *) pb)->offsets[0] == 0) {
+            /* a level-1 index entry with offset 0 is a block that exists only as a summary (omitted data) */
+#if VG_KF35
+            __CPROVER_assert(vg_fw[w].kind != 0, "C17: a block that exists only as a summary (omitted data) is re-created in the copy");
+#endif
         } else {
             __CPROVER_assert(vg_fw[w].kind == 0, "C17: structural chunks (heads, indices, summaries, END) are not re-issued: the writer rebuilds them");
         }
